@@ -236,6 +236,31 @@ def shuffled(rng, xs):
     return xs
 
 
+def make_glob(text):
+    """IPGlob(text).  For every second glob text (by a stable hash) the object is instead first
+    built from another glob, exercised (size, len, cidrs(), first/last, hash, str) and then
+    re-pointed with the writable `.glob` setter, so a cached attribute that ignores the setter
+    (a seeded regression did exactly that) is observed by every check that uses glob objects."""
+    import zlib
+    from netaddr import IPGlob
+    if zlib.crc32(text.encode()) & 1:
+        return IPGlob(text)
+    g = IPGlob('10.11.12.1-9')
+    _ = (g.size, len(g), g.cidrs(), g.first, g.last, hash(g), str(g), list(g)[:2])
+    g.glob = text
+    return g
+
+
+def twice_cidrs(r):
+    """`r.cidrs()` asked twice with the first answer's objects mutated in between: a shared
+    cache of mutable blocks shows up in the second answer."""
+    first = r.cidrs()
+    for b in first:
+        if b.prefixlen > 0:
+            b.prefixlen -= 1
+    return r.cidrs()
+
+
 # ---------------------------------------------------------------- driver
 
 def run_driver(lines, timeout=600):
